@@ -968,6 +968,16 @@ struct WorldT : PolicyOps {
         fill_err(info, ev);
         info.handler_uid = self_uid;
         info.handler_calls = ++tls().handler_calls;
+        if constexpr (kStd) {
+            // what the shipped handler does with a resolution error before it
+            // aborts: the name of every reported type, through the policy's
+            // rtti facet (two failing calls on two threads are both in there)
+            if (info.alt == EA_RESOLUTION) {
+                null_stream ns;
+                for (std::size_t i = 0; i < info.arity && i < 16; ++i)
+                    P::type_name(info.types[i], ns);
+            }
+        }
         if (g.probe_fd >= 0)
             probe_write(
                 "H %d %d %llu %llu\n", info.alt, info.status,
